@@ -4,6 +4,7 @@ import (
 	"fmt"
 	"math/rand"
 	"testing"
+	"time"
 
 	codectypes "github.com/cosmos/cosmos-sdk/codec/types"
 	sdk "github.com/cosmos/cosmos-sdk/types"
@@ -286,6 +287,30 @@ func aclScenario(w *world.World, rng *rand.Rand, rec *mon.Recorder, nClients int
 				rec.Violate("unauthorised-request-took-effect", map[string]string{"msg": "update", "signer": "deregistered-relayer"}, a.Res.Log, w.Witness(6))
 			}
 			break
+		}
+	}
+	// the registry long after the last update (every client past its trusting period): creating under an existing
+	// name is still an overwrite, whoever asks and whatever the state of the stored client
+	w.Net.Advance(vnet.DefaultClientCfg.TrustingPeriod + time.Duration(1+rng.Intn(100000))*time.Second)
+	for _, o := range others {
+		if !has(o.Name) {
+			continue
+		}
+		// the counterparty is alive: the offered client state is that of a block it has just produced
+		w.Do(&world.Action{Kind: "block", On: o, Exec: func(sdk.Context) error { return nil }})
+		for _, s := range signers[:2] {
+			before := clientBytes(o.Name)
+			csT, consT := vnet.NewTMClientState(o, vnet.DefaultClientCfg)
+			csT.TrustingPeriod /= 2 // a different but valid client state for the same name
+			m, _ := clienttypes.NewMsgCreateClient(o.Name, csT, consT, s.authority(X))
+			m.ChainName, m.Title, m.Description = o.Name, "t", "d"
+			a := deliver(s, m, "gov-create")
+			judge("create", s, "existing-name-expired-client", a, false, nil)
+			rec.Count("create-existing-refused", 1)
+			rec.Count("create-over-expired-refused", 1)
+			if string(clientBytes(o.Name)) != string(before) {
+				rec.Violate("create-overwrote-client", map[string]string{"signer": s.name, "stored_client": "expired"}, o.Name, w.Witness(6))
+			}
 		}
 	}
 }
